@@ -372,10 +372,19 @@ pub fn check_payload(payload: &[u8], reported_hash: &[u8], pp: &PP, o: &mut Outc
     }
 }
 
-fn judge(mask: u32, network: u8, o: &mut Outcome) {
-    // the two networks come with different cost models: one process compiles under both configurations
-    let pp = PP { network, cost_variant: network, ..PP::default() };
-    let detail = json!({"features": FEATURES.iter().filter(|f| has(mask, f)).collect::<Vec<_>>(), "network": network});
+fn judge(mask: u32, config: u8, o: &mut Outcome) {
+    // configurations 0 / 1: the two networks, which come with different cost models (one process compiles under both);
+    // 2.. : protocol parameters that lack the cost model of some language (only v1 / only v3 / none)
+    let network = if config <= 1 { config } else { 0 };
+    let cost_models = match config {
+        0 | 1 => 0b111u8,
+        2 => 0b001,
+        3 => 0b100,
+        _ => 0,
+    };
+    let pp = PP { network, cost_variant: network, cost_models, ..PP::default() };
+    let detail = json!({"features": FEATURES.iter().filter(|f| has(mask, f)).collect::<Vec<_>>(), "network": network, "cost_models": cost_models});
+    let with_redeemers = has(mask, "input-redeemer") || (has(mask, "mint-redeemer") && (has(mask, "mint") || has(mask, "burn")));
     let tx = build(mask, network, 0);
     // history of the process: the same template was compiled before by an instance configured with the other cost
     // models (nothing a compiler computes from its configuration may be remembered outside the instance)
@@ -389,6 +398,12 @@ fn judge(mask: u32, network: u8, o: &mut Outcome) {
         Err(p) => {
             o.class("compile-panic");
             o.violate(Violation::new(format!("compile-{}", p.signature()), format!("compile panicked: {}", p.message)).with_detail(detail));
+            return;
+        }
+        Ok(Err(_)) if cost_models != 0b111 && with_redeemers => {
+            // redeemers need a script data hash, which needs the cost model of the script's language: without it
+            // there is nothing consistent to emit
+            o.class("compile-error-missing-cost-model");
             return;
         }
         Ok(Err(e)) => {
@@ -469,6 +484,13 @@ impl Prop for C10 {
         for m in &masks {
             if tier.is_thorough() || *m < 1024 {
                 sink.case(|| json!({"kind": "features", "mask": m, "network": 1}));
+            }
+        }
+        // protocol parameters without the cost model of some language, for every subset of the features that decide
+        // about redeemers and script languages (the first 9)
+        for config in 2..=4u8 {
+            for m in 0..(1u32 << 9) {
+                sink.case(|| json!({"kind": "features", "mask": m, "network": config}));
             }
         }
     }
